@@ -107,4 +107,58 @@ def run_ec_new_point_c(env, sh):
 HARNESS_NEW_POINT = Harness('ec_new_point_c', run_ec_new_point_c, budget_s=900)
 
 
+def run_ec_cmp_c(env, sh):
+    """ec_ws_cmp on concrete pairs incl. the neutral element on either side and projectively different representations of
+    one point (LLSYM as bounds-checking interpreter): 0 exactly when the two points are equal in the textbook group"""
+    from vlib.models import ecref
+    from Crypto.PublicKey import ECC
+    K = kern.kernel(env, EC_UNIT)
+    if env.sym:
+        K.m.step_budget = 80000000
+    name = sh['curve']
+    c = ECC._curves[name]
+    p, b = int(c.p), int(c.b)
+    n = (p.bit_length() + 7) // 8
+    cur = ecref.Curve('ws', name, p, n, b=b, order=int(c.order))
+    G = (int(c.Gx), int(c.Gy))
+    add = lambda A, B: ecref.ws_add(cur, A, B)
+    Q = ecref.generic_smul(add, (0, 0), 5, G)
+    slot = K.ptr_slot()
+    env.check(K.call('ec_ws_new_context', slot, K.buf(p.to_bytes(n, 'big'), False, 'p'), K.buf(b.to_bytes(n, 'big'), False, 'b'),
+                     K.buf(int(c.order).to_bytes(n, 'big'), False, 'order'), n, 0x1122334455667788) == 0, 'context created')
+    ctx = K.deref(slot)
+    cnt = [0]
+
+    def point(P):
+        cnt[0] += 1
+        sl = K.ptr_slot()
+        env.check(K.call('ec_ws_new_point', sl, K.buf(P[0].to_bytes(n, 'big'), False, 'x%d' % cnt[0]), K.buf(P[1].to_bytes(n, 'big'), False, 'y%d' % cnt[0]), n, ctx) == 0, 'point created')
+        return K.deref(sl)
+    O = (0, 0)
+    pts = dict(G=(point(G), G), G2=(point(G), G), Q=(point(Q), Q), O=(point(O), O), O2=(point(O), O), N=(point((G[0], p - G[1])), (G[0], p - G[1])))
+    # projective representations: G + Q computed both ways, G + (-G) = O, 2G by doubling and by addition
+    s1, s2 = point(G), point(Q)
+    K.call('ec_ws_add', s1, pts['Q'][0])
+    K.call('ec_ws_add', s2, pts['G'][0])
+    pts['GQ'] = (s1, add(G, Q))
+    pts['QG'] = (s2, add(Q, G))
+    z = point(G)
+    K.call('ec_ws_add', z, pts['N'][0])
+    pts['Z'] = (z, O)
+    d1, d2 = point(G), point(G)
+    K.call('ec_ws_double', d1)
+    K.call('ec_ws_add', d2, pts['G2'][0])
+    pts['D1'] = (d1, add(G, G))
+    pts['D2'] = (d2, add(G, G))
+    names = sorted(pts)
+    for a in names:
+        for bb in names:
+            r = K.call('ec_ws_cmp', pts[a][0], pts[bb][0])
+            env.check((r == 0) == (pts[a][1] == pts[bb][1]), 'ec_ws_cmp(%s, %s) is %s' % (a, bb, 'zero (equal points)' if pts[a][1] == pts[bb][1] else 'non-zero (different points)'))
+    K.check_memory_safe()
+
+
+HARNESS_CMP = Harness('ec_cmp_c', run_ec_cmp_c, budget_s=900)
+
+
 HARNESS = Harness('ec_scalar_mem', run_ec_scalar_mem, budget_s=900)
